@@ -606,7 +606,8 @@ class ArrayField(FieldValidator, abc.Sequence, Generic[_FV]):
             raise AttributeError("Array descriptor is not bound to an instance object.")
 
         if _VALIDATION_ENABLED.get():
-            if isinstance(value, abc.Iterable) or hasattr(value, "__getitem__"):
+            # a slice takes a sequence, an index takes one element
+            if isinstance(key, slice):
                 self.validate_many(value)
             else:
                 self.validate_one(value)
@@ -826,16 +827,17 @@ class ByteArray(ArrayField[Byte]):
             raise AttributeError("Array descriptor is not bound to an instance object.")
 
         if _VALIDATION_ENABLED.get():
-            if isinstance(value, abc.Iterable) or hasattr(value, "__getitem__"):
+            # a slice takes a sequence, an index takes one element
+            if isinstance(key, slice):
                 self.validate_many(value)
             else:
                 self.validate_one(value)
 
             if isinstance(value, (bytes, bytearray)):
-                if len(value) == 1:
-                    value = int.from_bytes(value, "little")
-                else:
+                if isinstance(key, slice):
                     value = [v for v in value]
+                else:
+                    value = int.from_bytes(value, "little")
 
         getattr(self._bound_obj, self._private_name)[key] = value
 
@@ -1023,7 +1025,8 @@ class StructArray(FieldValidator, abc.Sequence, Generic[_S]):
             )
 
         if _VALIDATION_ENABLED.get():
-            if isinstance(value, abc.Iterable) or hasattr(value, "__getitem__"):
+            # a slice takes a sequence, an index takes one element
+            if isinstance(key, slice):
                 self.validate_many(value)
             else:
                 self.validate_one(value)
